@@ -631,8 +631,9 @@ class ProbabilisticTensorDictModule(TensorDictModuleBase):
                         )
                     else:
                         log_prob = dist.log_prob(out_tensors)
-                        out_tensors.update(log_prob)
+                        # custom log_prob_keys: rename before the entries are written
                         self._update_td_lp(log_prob)
+                        out_tensors.update(log_prob)
                 tensordict_out.update(out_tensors)
             else:
                 if isinstance(out_tensors, Tensor):
